@@ -31,7 +31,10 @@ PROPS = {
     # (C05 also on the serde build: deserialisation is one more way to construct a container)
     'C05': {'quick': ['A', 'B', 'D'], 'thorough': ALLCFG + ['D'], 'level': 'proof', 'e2': True, 'roots': 'all'},
     'C17': {'quick': ['A', 'B'], 'thorough': ALLCFG, 'level': 'proof', 'e2': True, 'roots': 'all'},
-    'C06': {'quick': ['A', 'B', 'C', 'D'], 'thorough': ['A', 'B', 'C', 'D', 'E'], 'level': 'proof', 'e2': False},
+    # (graph analyses on all builds; the INSIDE rule -- element references point into the container -- is decided by
+    # the interpreter on the roots that hand out element references, builds A and B: 'e2cfgs')
+    'C06': {'quick': ['A', 'B', 'C', 'D'], 'thorough': ['A', 'B', 'C', 'D', 'E'], 'level': 'proof', 'e2': True,
+            'roots': 'anchors', 'e2cfgs': ['A', 'B']},
     # behavioural properties: outcome schemas on the anchor roots of the property
     # (C12 also on the serde build: the deserialisation visitors are insertion paths too)
     'C12': {'quick': ['A', 'B', 'D'], 'thorough': ALLCFG + ['D'], 'level': 'proof', 'e2': True, 'roots': 'anchors'},
@@ -288,8 +291,9 @@ def e2_collect(pid, facts, merged):
             dis += n_cov - len(cov) + n_cen - len(cen)
         for r in m['roots'].values():
             for rule, ss in r['samples'].items():
-                mine = pid in RULE_PROPS.get(rule, ()) or (pid in (r.get('root_props') or ())
-                                                            and rule in ('OUT', 'ROUTE', 'SCAN', 'ARMCALL'))
+                mine = pid in RULE_PROPS.get(rule, ()) or (pid != 'C06' and pid in (r.get('root_props') or ())
+                                                            and rule in ('OUT', 'ROUTE', 'SCAN', 'ARMCALL')) \
+                    or (pid == 'C06' and rule == 'INSIDE')
                 if mine and len(samples) < 8:
                     for s in ss[:1]:
                         samples.append(dict(s, rule=rule, config=cfg))
@@ -356,7 +360,9 @@ def run_check(pid, tier, seed, only_key=None):
         if spec.get('roots') == 'anchors':
             from . import specs
 
-            def select(body, cfg, _pid=pid, _dep=tuple(dep_only)):
+            def select(body, cfg, _pid=pid, _dep=tuple(dep_only), _only=spec.get('e2cfgs')):
+                if _only is not None and cfg not in _only:
+                    return False
                 rp = specs.props_of_root(body)
                 if cfg in _dep:
                     return bool(rp & MUTATOR_PROPS)
@@ -387,6 +393,13 @@ def run_check(pid, tier, seed, only_key=None):
         dis = ob - len(vs)
         samples = extra.pop('samples', [])
         stats = extra
+        e2c = spec.get('e2cfgs') or []
+        vs2, ob2, dis2, samples2, stats2 = e2_collect(pid, {c: facts[c] for c in e2c}, {c: merged[c] for c in e2c})
+        vs += vs2
+        ob += ob2
+        dis += dis2
+        samples = (samples2[:4] + samples)[:10]
+        stats['element_references'] = stats2
     else:
         vs, ob, dis, samples, stats = e2_collect(pid, facts, merged)
     # E4: compile-fail witnesses (both tiers: they cost well under a second)
@@ -515,6 +528,8 @@ def fired_all(tier='quick'):
         want = spec[tier]
         if pid == 'C06':
             vs, ob, extra = c06_collect({c: f for c, f in facts_all.items() if c in want}, {})
+            e2c = spec.get('e2cfgs') or []
+            vs += e2_collect(pid, {c: facts_all[c] for c in e2c}, {c: merged_all[c] for c in e2c})[0]
         else:
             want = want + [c for c in DEP_ONLY_CFGS.get(pid, ()) if c not in want]
             vs, ob, dis, samples, stats = e2_collect(pid, {c: facts_all[c] for c in want},
